@@ -87,7 +87,15 @@ fn stir(rng: &mut Rng, table: &mut Table, pool: &IdPool, free_a_slot: bool, time
     let (d, ids) = *rng.pick(&candidates);
     let stored: BTreeSet<Id> = scan(table).into_iter().map(|(i, _)| i).filter(|i| kb::log2(i, &pool.local) == *d).collect();
     let mut have = stored.len();
-    let mut spare: Vec<Id> = ids.iter().copied().filter(|i| !stored.contains(i)).collect();
+    // (a plain loop: the iterator-adapter form of this line makes the AddressSanitizer build of
+    // the nightly compiler report a stack-use-after-scope inside the standard library's own
+    // `collect`, in safe code, which ends the sanitizer pass before it observed anything)
+    let mut spare: Vec<Id> = Vec::with_capacity(ids.len());
+    for i in ids.iter() {
+        if !stored.contains(i) {
+            spare.push(*i);
+        }
+    }
     // fill with disconnected nodes (a full bucket needs a disconnected node to take a candidate)
     while have < 16 {
         let id = spare.pop()?;
